@@ -110,8 +110,39 @@ func runC18(kind string, args []*Sexp) *Sexp {
 	return res
 }
 
+// vmod is a builtin (Go) module with every item shape: plain values, functions, and functions
+// nested in map, array and sync-map items.
+func vmodAttrs() map[string]ugo.Object {
+	triple := &ugo.Function{Name: "triple", Value: func(args ...ugo.Object) (ugo.Object, error) {
+		if len(args) != 1 {
+			return nil, ugo.ErrWrongNumArguments
+		}
+		if i, ok := args[0].(ugo.Int); ok {
+			return i * 3, nil
+		}
+		return ugo.Undefined, nil
+	}}
+	inc := &ugo.Function{Name: "inc", Value: func(args ...ugo.Object) (ugo.Object, error) {
+		if len(args) == 1 {
+			if i, ok := args[0].(ugo.Int); ok {
+				return i + 1, nil
+			}
+		}
+		return ugo.Undefined, nil
+	}}
+	return map[string]ugo.Object{
+		"k": ugo.Int(41), "name": ugo.String("vmod"), "pi": ugo.Float(3.5), "flag": ugo.True, "ch": ugo.Char('x'),
+		"raw": ugo.Bytes{1, 2}, "u": ugo.Uint(7), "nothing": ugo.Undefined,
+		"inc": inc,
+		"ns":  ugo.Map{"triple": triple, "depth": ugo.Map{"inc": inc}, "n": ugo.Int(2)},
+		"arr": ugo.Array{inc, ugo.Int(5), ugo.Array{triple}},
+		"sm":  &ugo.SyncMap{Value: ugo.Map{"triple": triple}},
+	}
+}
+
 func moduleMapStd() *ugo.ModuleMap {
 	mm := ugo.NewModuleMap()
 	mm.AddBuiltinModule("time", ugotime.Module)
+	mm.AddBuiltinModule("vmod", vmodAttrs())
 	return mm
 }
